@@ -918,7 +918,7 @@ func init() {
 	addControl(control{Prop: "C04", Name: "max-looks-at-the-pointer", Rule: "R04i", Kind: "mutant", Quick: true,
 		File: "validator.go", Old: "	val := chaseValue(reflect.ValueOf(v))\n	switch val.Kind() {\n	case reflect.Int, reflect.Int8, reflect.Int16, reflect.Int32, reflect.Int64:\n		max, err := strconv.ParseInt(param, 0, 64)", New: "	val := reflect.ValueOf(v)\n	switch val.Kind() {\n	case reflect.Int, reflect.Int8, reflect.Int16, reflect.Int32, reflect.Int64:\n		max, err := strconv.ParseInt(param, 0, 64)", Expect: "R04i/ucfg.validateMax"})
 	addControl(control{Prop: "C04", Name: "strings-recognised-by-assertion", Rule: "R04i", Kind: "mutant",
-		File: "validator.go", Old: "	if s := reflect.ValueOf(v); s.Kind() == reflect.String {\n		if s.Len() == 0 {\n			return ErrStringEmpty\n		}\n		return nil\n	}\n", New: "	if s, ok := v.(string); ok {\n		if s == \"\" {\n			return ErrStringEmpty\n		}\n		return nil\n	}\n", Expect: "R04i/ucfg.validateNonEmptyWithAllowNil"})
+		File: "validator.go", Old: "	if val.Kind() == reflect.String {\n		if val.Len() == 0 {\n			return ErrStringEmpty\n		}\n		return nil\n	}\n", New: "	if s, ok := v.(string); ok {\n		if s == \"\" {\n			return ErrStringEmpty\n		}\n		return nil\n	}\n", Expect: "R04i/ucfg.validateNonEmptyWithAllowNil"})
 	addControl(control{Prop: "C19", Name: "usage-error-reported-but-not-latched", Rule: "R19g", Kind: "mutant", Quick: true,
 		File: "flag/value.go", Old: "				err := fmt.Errorf(\"argument '%v' is empty \", arg)\n				return nil, err, err\n", New: "				err := fmt.Errorf(\"argument '%v' is empty \", arg)\n				return nil, nil, err\n", Expect: "R19g/flag.NewFlagKeyValue"})
 	addControl(control{Prop: "C20", Name: "indexed-address-parses-the-name-without-numeric-keys", Rule: "R20g", Kind: "mutant", Quick: true,
@@ -969,4 +969,69 @@ func init() {
 		File: "path.go", Old: "		if next == nil {\n			return nil, raiseMissingIn(cur, field.String())\n		}\n", New: "		if next == nil {\n			return nil, raiseMissing(cfg, field.String())\n		}\n", Expect: "R14h/(ucfg.cfgPath).GetValue"})
 	addControl(control{Prop: "C14", Name: "missing-step-raised-at-a-named-cursor", Rule: "R14h", Kind: "refactor",
 		File: "path.go", Old: "		if next == nil {\n			return nil, raiseMissingIn(cur, field.String())\n		}\n", New: "		if next == nil {\n			reached := cur\n			return nil, raiseMissingIn(reached, field.String())\n		}\n"})
+}
+
+func init() {
+	addControl(control{Prop: "C04", Name: "inlined-object-without-its-validate-tag", Rule: "R04j", Kind: "mutant", Quick: true,
+		File: "reify.go", Old: "					if err := runValidators(fInfo.value.Interface(), fInfo.validatorTags); err != nil {\n						return raiseValidation(cfg.ctx, cfg.metadata, fInfo.name, err)\n					}\n", New: "", Expect: "R04j/ucfg.reifyStruct/every field's validate tag used"})
+	addControl(control{Prop: "C04", Name: "inlined-object-validated-through-a-local-tag-list", Rule: "R04j", Kind: "refactor",
+		File: "reify.go", Old: "					if err := runValidators(fInfo.value.Interface(), fInfo.validatorTags); err != nil {\n", New: "					tags := fInfo.validatorTags\n					if err := runValidators(fInfo.value.Interface(), tags); err != nil {\n"})
+}
+
+func init() {
+	addControl(control{Prop: "C19", Name: "collector-gets-a-copy-of-no-options", Rule: "R19a", Kind: "mutant",
+		File: "flag/util.go", Old: "		collector: cfgutil.NewCollector(cfg, opts...),\n", New: "		collector: cfgutil.NewCollector(cfg, ownOptions(opts)...),\n", Expect: "R19a/flag.newFlagValue",
+		More: []edit{{File: "flag/util.go", Old: "func (v *FlagValue) Config() *ucfg.Config {", New: "func ownOptions(opts []ucfg.Option) []ucfg.Option {\n	own := make([]ucfg.Option, 0, len(opts))\n	copy(own, opts)\n	return own\n}\n\nfunc (v *FlagValue) Config() *ucfg.Config {"}}})
+	addControl(control{Prop: "C19", Name: "collector-gets-its-own-copy-of-the-options", Rule: "R19a", Kind: "refactor",
+		File: "flag/util.go", Old: "		collector: cfgutil.NewCollector(cfg, opts...),\n", New: "		collector: cfgutil.NewCollector(cfg, ownOptions(opts)...),\n",
+		More: []edit{{File: "flag/util.go", Old: "func (v *FlagValue) Config() *ucfg.Config {", New: "func ownOptions(opts []ucfg.Option) []ucfg.Option {\n	own := make([]ucfg.Option, len(opts))\n	copy(own, opts)\n	return own\n}\n\nfunc (v *FlagValue) Config() *ucfg.Config {"}}})
+}
+
+func init() {
+	addControl(control{Prop: "C18", Name: "parsed-text-normalised-with-the-readers-options", Rule: "R18k", Kind: "mutant", Quick: true,
+		File: "types.go", Old: "	nopts := *opts\n	nopts.meta = p.meta()\n	sub, err := normalize(&nopts, ifc)\n", New: "	sub, err := normalize(opts, ifc)\n", Expect: "R18k/ucfg.parseValue"})
+	addControl(control{Prop: "C18", Name: "parsed-text-options-copied-without-the-source", Rule: "R18k", Kind: "mutant",
+		File: "types.go", Old: "	nopts := *opts\n	nopts.meta = p.meta()\n", New: "	nopts := *opts\n", Expect: "R18k/ucfg.parseValue"})
+	addControl(control{Prop: "C18", Name: "parsed-text-options-take-the-metadata-field", Rule: "R18k", Kind: "refactor",
+		File: "types.go", Old: "	nopts := *opts\n	nopts.meta = p.meta()\n", New: "	nopts := *opts\n	own := p.metadata\n	nopts.meta = own\n"})
+}
+
+func init() {
+	addControl(control{Prop: "C12", Name: "has-answers-plain-names-from-the-dictionary", Rule: "R12a", Kind: "mutant", Quick: true,
+		File: "ucfg.go", Old: "	opts := makeOptions(options)\n	p := parsePathIdx(name, idx, opts)\n	return p.Has(c, opts)\n", New: "	opts := makeOptions(options)\n	if idx < 0 && name != \"\" && opts.pathSep == \"\" {\n		return c.HasField(name), nil\n	}\n	p := parsePathIdx(name, idx, opts)\n	return p.Has(c, opts)\n", Expect: "R12a/(*ucfg.Config).Has/no answer around the address function"})
+	addControl(control{Prop: "C12", Name: "has-keeps-the-walks-answer-in-locals", Rule: "R12a", Kind: "refactor",
+		File: "ucfg.go", Old: "	p := parsePathIdx(name, idx, opts)\n	return p.Has(c, opts)\n", New: "	p := parsePathIdx(name, idx, opts)\n	found, err := p.Has(c, opts)\n	if err != nil {\n		return false, err\n	}\n	return found, nil\n"})
+}
+
+func init() {
+	addControl(control{Prop: "C15", Name: "empty-path-taken-for-the-root-when-joining", Rule: "R15m", Kind: "mutant", Quick: true,
+		File: "types.go", Old: "	if c.parent == nil && c.field == \"\" {\n		return field\n	}\n	return fmt.Sprintf(\"%v%v%v\", c.path(sep), sep, field)\n", New: "	if p := c.path(sep); p != \"\" {\n		return fmt.Sprintf(\"%v%v%v\", p, sep, field)\n	}\n	return field\n", Expect: "R15m/(*ucfg.context).pathOf"})
+	addControl(control{Prop: "C15", Name: "path-joined-by-concatenation", Rule: "R15m", Kind: "refactor",
+		File: "types.go", Old: "	return fmt.Sprintf(\"%v%v%v\", c.path(sep), sep, field)\n", New: "	return c.path(sep) + sep + field\n"})
+}
+
+func init() {
+	addControl(control{Prop: "C02", Name: "strings-without-a-reference-skip-the-lexer", Rule: "R02h", Kind: "mutant", Quick: true,
+		File: "variables.go", Old: "	lex, errs := lexer(in)\n	drainLex := func() {", New: "	if !strings.Contains(in, \"${\") {\n		return constExp(in), nil\n	}\n\n	lex, errs := lexer(in)\n	drainLex := func() {", Expect: "R02h/ucfg.parseSplice"})
+	addControl(control{Prop: "C07", Name: "return-before-the-lexer-starts-needs-no-drain", Rule: "R07e", Kind: "refactor",
+		File: "variables.go", Old: "	lex, errs := lexer(in)\n	drainLex := func() {", New: "	if maxIdx < 0 {\n		return nil, ErrIndexOutOfRange\n	}\n\n	lex, errs := lexer(in)\n	drainLex := func() {"})
+}
+
+func init() {
+	addControl(control{Prop: "C03", Name: "duration-classifies-the-reference-node", Rule: "R03f", Kind: "mutant", Quick: true,
+		File: "reify.go", Old: "	switch v := node.(type) {\n	case *cfgInt:\n		if v.i < -maxSeconds", New: "	_ = node\n	switch v := val.(type) {\n	case *cfgInt:\n		if v.i < -maxSeconds", Expect: "R03f/ucfg.reifyDuration"})
+	addControl(control{Prop: "C03", Name: "duration-reference-resolved-in-two-steps", Rule: "R03f", Kind: "refactor",
+		File: "reify.go", Old: "		if resolved, rerr := ref.getValue(opts.opts); rerr == nil && resolved != nil {\n			node = resolved\n		}\n", New: "		resolved, rerr := ref.getValue(opts.opts)\n		if rerr == nil {\n			if resolved != nil {\n				node = resolved\n			}\n		}\n"})
+}
+
+func init() {
+	addControl(control{Prop: "C11", Name: "config-target-merged-with-itself", Rule: "R11d", Kind: "mutant", Quick: true,
+		File: "reify.go", Old: "		if target == from {\n", New: "		if target == nil {\n", Expect: "R11d/ucfg.reifyInto"})
+	addControl(control{Prop: "C11", Name: "config-target-identity-test-inverted-form", Rule: "R11d", Kind: "refactor",
+		File: "reify.go", Old: "		return mergeConfig(opts, target, from)\n	}\n", New: "		if target != from {\n			return mergeConfig(opts, target, from)\n		}\n		return nil\n	}\n"})
+}
+
+func init() {
+	addControl(control{Prop: "C04", Name: "required-looks-at-the-pointer", Rule: "R04i", Kind: "mutant", Quick: true,
+		File: "validator.go", Old: "	val := chaseValue(reflect.ValueOf(v))\n\n	// strings, also of a named string type\n", New: "	val := reflect.ValueOf(v)\n\n	// strings, also of a named string type\n", Expect: "R04i/ucfg.validateNonEmptyWithAllowNil"})
 }
